@@ -113,7 +113,6 @@ def run(ctx):
         "tilde expansion, globbing, brace expansion and the expansion of the parts themselves are outside the model",
         "bash 5.2 is not consulted where it mishandles multi-byte IFS characters bytewise (IFS with a multi-byte character and "
         "white space; a multi-byte IFS character in quoted text); there only Go vs model and interp vs expand.Fields are checked",
-        "unquoted $@/$* with empty IFS: modelled and tied to the code, compared with bash, not covered by the theorem",
     ]
 
 
